@@ -1334,6 +1334,18 @@ func (e *Engine) indexAddr(w *Worker, st *State, g *G, fr *Frame, in *ssa.IndexA
 }
 
 func (e *Engine) makeSlice(w *Worker, st *State, g *G, fr *Frame, in *ssa.MakeSlice) {
+	// make([]byte, 0, <symbolic capacity>): an empty lazy buffer (capacities of lazy buffers
+	// are not modelled: cap == len, append always allocates); a negative capacity panics
+	if bt, ok := in.Type().Underlying().(*types.Slice).Elem().Underlying().(*types.Basic); ok && bt.Kind() == types.Uint8 {
+		lt, _ := e.get(st, g, fr, in.Len).(*Term)
+		ct, _ := e.get(st, g, fr, in.Cap).(*Term)
+		if lt != nil && lt.IsConst() && lt.K == 0 && ct != nil && !ct.IsConst() {
+			e.boundsCond(w, st, g, fr, CmpBV(OpBVSle, BV(ct.W, 0), ct), "makeslice: cap")
+			e.set(fr, in, symBytes(nil))
+			fr.PC++
+			return
+		}
+	}
 	n := e.concreteInt(w, st, g, fr, e.get(st, g, fr, in.Len), "slice len")
 	c := e.concreteInt(w, st, g, fr, e.get(st, g, fr, in.Cap), "slice cap")
 	if n < 0 || c < n {
